@@ -330,7 +330,7 @@ func check(rt *rapid.T, c *chains.Chain, p *chains.Cond, mode string, v variatio
 		}
 		args := make([]interface{}, len(real.Args))
 		for k, x := range real.Args {
-			args[k] = chains.Norm(x.Value)
+			args[k] = chains.NormArg(x.Name, x.Value)
 		}
 		if k := chains.SameAll(chains.NormAll(st.vars), args); k >= 0 {
 			fail("statement %d of the real run: arguments differ from the dry run's values at index %d:\n    real: %s", dryAt[i]+1, k, chains.Render(args))
